@@ -427,6 +427,23 @@ func (h *hist) checkAllow() {
 func (h *hist) checkHead() {
 	c, s := h.c, h.s
 	routes := takeRoutes(s.R)
+	// what Routes() says about the automatic methods: OPTIONS on every pattern it lists, HEAD exactly beside GET, and no
+	// pattern that is not live (its GET/HEAD/OPTIONS are not served any more)
+	for p, ms := range routes {
+		if p == "*" {
+			continue // the server-wide entry: C04's
+		}
+		e := s.Live[p]
+		if e == nil {
+			h.violate(fmt.Sprintf("Routes() lists %q %v, which has no method left: its HEAD and OPTIONS are not served", p, ms), nil)
+			return
+		}
+		if !contains(ms, "OPTIONS") || contains(ms, "HEAD") != (e.M["GET"] != nil) || contains(ms, "GET") != (e.M["GET"] != nil) {
+			h.violate(fmt.Sprintf("Routes()[%q]=%v, registered GET=%v", p, ms, e.M["GET"] != nil), nil)
+			return
+		}
+		c.Class("routes_entry_head_options_checked")
+	}
 	for i, p := range h.pool {
 		pp := h.parsed[p]
 		w, _ := Witness(pp, i)
